@@ -3,7 +3,8 @@
 //! (start, ret ok/err, one render event per error, finish | panic | render_panic | timeout | abort).
 //! TLC (Trace_Pipeline) decides whether each recorded run is a complete behaviour of SyltPipeline.
 //!
-//!   c07 run tok20|tok31 <maxlen> <first> <last> <outdir> <name>   token strings (index order of SyltPipeline!TokenStringAt), no_std
+//!   c07 run tok20.raw|tok20.top|tok20.body|tok31.raw|tok31.top|tok31.body <maxlen> <first> <last> <outdir> <name>
+//!                         framed token strings (SyltPipeline!TokenTextAt, index order of TokenStringAt), no_std
 //!   c07 run mut <count> <outdir> <name>                            seeded mutations of /repo/tests/**/*.sy and /repo/std/*.sy, with std
 //!   c07 run proj <outdir> <name>                                   multi-file projects served from memory, with and without std
 //!   c07 run cases <cases.ndjson> <outdir> <name>                   arbitrary case file (replay)
@@ -40,8 +41,8 @@ const MEM_LIMIT: u64 = 6 << 30; // address-space limit of a worker (a runaway al
 
 fn alphabet(u: &str) -> &'static [&'static str] {
     match u {
-        "tok20" => TOK20,
-        "tok31" => TOK31,
+        "tok20.raw" | "tok20.top" | "tok20.body" => TOK20,
+        "tok31.raw" | "tok31.top" | "tok31.body" => TOK31,
         _ => tool_error("unknown token universe"),
     }
 }
@@ -69,6 +70,21 @@ fn token_string_at(alpha: &[&str], idx: usize) -> String {
         m /= a;
     }
     parts.join(" ")
+}
+
+/// SyltPipeline!TokenTextAt: the token string placed in a frame.
+///   raw : the token string itself
+///   top : the token string as top-level text, followed by a minimal entry point
+///   body: the token string as the body of the entry point
+fn token_text_at(u: &str, alpha: &[&str], idx: usize) -> String {
+    let s = token_string_at(alpha, idx);
+    if u.ends_with(".top") {
+        format!("{}\nstart :: fn do end\n", s)
+    } else if u.ends_with(".body") {
+        format!("start :: fn do\n{}\nend\n", s)
+    } else {
+        s
+    }
 }
 
 #[derive(Clone, Debug, Serialize, Deserialize)]
@@ -252,8 +268,12 @@ enum Source {
 impl Source {
     fn open(universe: &str, cases: &str) -> Source {
         match universe {
-            "tok20" => Source::Tok("tok20", TOK20),
-            "tok31" => Source::Tok("tok31", TOK31),
+            "tok20.raw" => Source::Tok("tok20.raw", TOK20),
+            "tok20.top" => Source::Tok("tok20.top", TOK20),
+            "tok20.body" => Source::Tok("tok20.body", TOK20),
+            "tok31.raw" => Source::Tok("tok31.raw", TOK31),
+            "tok31.top" => Source::Tok("tok31.top", TOK31),
+            "tok31.body" => Source::Tok("tok31.body", TOK31),
             _ => Source::Cases(read_ndjson(Path::new(cases))),
         }
     }
@@ -261,7 +281,7 @@ impl Source {
     fn head(&self, i: usize) -> Value {
         match self {
             Source::Tok(u, alpha) => {
-                json!({"id": format!("{}:{}", u, i), "u": u, "idx": i, "input": token_string_at(alpha, i), "kind": "tok"})
+                json!({"id": format!("{}:{}", u, i), "u": u, "idx": i, "input": token_text_at(u, alpha, i), "kind": "tok"})
             }
             Source::Cases(v) => {
                 let c = &v[i - 1];
@@ -273,7 +293,7 @@ impl Source {
         match self {
             Source::Tok(u, alpha) => {
                 let mut files = BTreeMap::new();
-                files.insert("main.sy".to_string(), token_string_at(alpha, i));
+                files.insert("main.sy".to_string(), token_text_at(u, alpha, i));
                 Case {
                     id: format!("{}:{}", u, i),
                     kind: "tok".into(),
@@ -362,15 +382,29 @@ struct RunStats {
 }
 
 fn spawn_worker(universe: &str, cases: &str, from: usize, to: usize, out: &Path) -> std::process::Child {
+    // the path of this binary; while another build relinks it the file is briefly absent ("... (deleted)"): retry
     let exe = std::env::current_exe().unwrap();
+    let exe = PathBuf::from(exe.to_string_lossy().trim_end_matches(" (deleted)").to_string());
     let _ = std::fs::remove_file(out);
-    std::process::Command::new(exe)
-        .args(["worker", universe, cases, &from.to_string(), &to.to_string(), &out.to_string_lossy()])
-        .stdin(std::process::Stdio::null())
-        .stdout(std::process::Stdio::null())
-        .stderr(std::process::Stdio::null())
-        .spawn()
-        .unwrap_or_else(|e| tool_error(&format!("cannot spawn worker: {}", e)))
+    let mut tries = 0;
+    loop {
+        let r = std::process::Command::new(&exe)
+            .args(["worker", universe, cases, &from.to_string(), &to.to_string(), &out.to_string_lossy()])
+            .stdin(std::process::Stdio::null())
+            .stdout(std::process::Stdio::null())
+            .stderr(std::process::Stdio::null())
+            .spawn();
+        match r {
+            Ok(c) => return c,
+            Err(e) => {
+                tries += 1;
+                if tries > 150 {
+                    tool_error(&format!("cannot spawn worker: {}", e));
+                }
+                std::thread::sleep(Duration::from_millis(200));
+            }
+        }
+    }
 }
 
 fn read_from(path: &Path, offset: usize) -> std::io::Result<Vec<u8>> {
@@ -671,9 +705,31 @@ fn mk_case(id: String, kind: &str, base: &str, text: String) -> Case {
     Case { id, kind: kind.to_string(), base: base.to_string(), files, main: base.to_string(), no_std: false, corpus: true }
 }
 
+const EXPR_SNIPPETS: &[&str] = &[
+    "(1, 2)", "(1,)", "()", "[1, 2]", "[]", "{1: 2}", "{1, 2}", "{:}", "(fn a -> a end)", "(fn do end)", "(pu a: int -> int do ret a end)",
+    "(if true do 1 else 2 end)", "(if true do 1 end)", "(case 1 do else 2 end end)", "nil", "1.5", "\"s\"", "true", "(-1)", "(not true)",
+    "(1 + \"s\")", "(1 <=> 1)", "(1 == 1)", "(1 < 2)", "(true and 1)", "(1 -> print())", "(print' 1)", "print", "start", "start()",
+    "(1)(2)", "(1)[0]", "(1, 2)[0]", "(1, 2)[5]", "[1][0]", "(1).x", "nope", "Nope", "Nope { x: 1 }", "Nope.X 1", "Nope.X", "list",
+    "list.map", "(fn -> start() end)", "(fn a, a -> a end)", "(fn a: Nope -> a end)", "(fn a: *T -> a end)", "(fn a: [int] -> a[0] end)",
+    "(fn a: (int, str) -> a[1] end)", "(fn a: {int: str} -> a end)", "(fn a: fn int -> int -> a(1) end)", "<!>", "(1 in [1])",
+];
+
+const STMT_SNIPPETS: &[&str] = &[
+    "ret", "ret 1", "ret (1, 2)", "break", "continue", "<!>", "loop do break end", "loop true do continue end", "loop 1 do end",
+    "if true do end", "if 1 do end", "if true do ret 1 else do ret \"s\" end", "do end", "do do do end end end",
+    "zz := 1", "zz :: 1", "zz = 1", "zz += 1", "zz: int = 1", "zz: Nope = 1", "zz: int : 1", "zz :: fn do end", "zz :: fn -> zz() end",
+    "zz :: fn a: int -> int do ret zz(a) end", "zz := zz", "zz :: zz", "start := 1", "start :: fn do end", "start = 1", "start()",
+    "use zz", "use list", "use list as start", "from list use map", "from zz use zz", "Zz :: blob { a: int }", "Zz :: blob { a: Zz }",
+    "Zz :: blob { }", "Zz :: enum A, B end", "Zz :: enum A Zz end", "Zz :: enum end", "zz :: blob { a: int }", "Zz :: externblob { a: int }",
+    "zz :: external", "zz: int : external", "zz: fn int -> int : external", "1", "\"s\"", "1 <=> 1", "1 <=> \"s\"", "print' 1", "1 -> print()",
+    "case 1 do else end end", "case 1 do A -> 1 end end", "case Nope.X do X -> 1 end else 2 end end", "(1, 2)[0] = 1", "[1][0] = 2", "1 = 2",
+    "start.x = 1", "list.map = 1", "nope.x = 1", "a, b := 1, 2", "(a, b) := (1, 2)", "int :: 1", "Int :: 1", "x: int, y: int = 1, 2",
+];
+
 const MUT_KINDS: &[&str] = &[
     "truncate", "delete", "dup", "swap", "splice", "move-in", "copy-in", "move-out", "copy-out", "garbage", "cut-chars",
     "ident-swap", "op-swap", "lit-swap", "line-delete", "line-dup", "stmt-delete", "stmt-dup",
+    "expr-inject", "stmt-inject",
 ];
 
 fn gen_mutations(count: usize, corpus: &Corpus) -> Vec<Case> {
@@ -849,6 +905,45 @@ fn gen_mutations(count: usize, corpus: &Corpus) -> Vec<Case> {
                 v[k].text = ps.v[o].text.clone();
                 v[k].tok = ps.v[o].tok.clone();
                 join(&v) + &ps.tail
+            }
+            "expr-inject" => {
+                // an identifier or literal operand is replaced by a parenthesised expression form
+                let idx: Vec<usize> = (1..n)
+                    .filter(|i| {
+                        matches!(ps.v[*i].tok, Token::Identifier(_) | Token::Int(_) | Token::Float(_) | Token::String(_) | Token::Bool(_))
+                            && !matches!(ps.v.get(*i + 1).map(|q| &q.tok), Some(Token::ColonColon) | Some(Token::ColonEqual) | Some(Token::Colon))
+                            && !matches!(ps.v[*i - 1].tok, Token::Use | Token::From | Token::Dot | Token::Slash)
+                    })
+                    .collect();
+                if idx.is_empty() {
+                    continue;
+                }
+                let k = idx[rng.gen_range(0..idx.len())];
+                let e = rng.gen_range(0..EXPR_SNIPPETS.len());
+                tag = format!("{}<-e{}", k, e);
+                let mut v = ps.v.clone();
+                v[k].text = EXPR_SNIPPETS[e].to_string();
+                join(&v) + &ps.tail
+            }
+            "stmt-inject" => {
+                // a statement form is inserted as the first line of a function body, or at the top level
+                let bps = body_points(&ps.v, &tl);
+                let e = rng.gen_range(0..STMT_SNIPPETS.len());
+                let (at, indent) = if !bps.is_empty() && rng.gen_range(0..5) != 0 {
+                    (bps[rng.gen_range(0..bps.len())], "    ")
+                } else if !tl.is_empty() {
+                    (tl[rng.gen_range(0..tl.len())].0, "")
+                } else {
+                    continue;
+                };
+                tag = format!("{}<-s{}", at, e);
+                let lead = if at < n { ps.v[at].gap.clone() } else { String::new() };
+                let mut text = join(&ps.v[..at]);
+                text.push_str(&lead);
+                text.push_str(indent);
+                text.push_str(STMT_SNIPPETS[e]);
+                text.push('\n');
+                text + &join(&ps.v[at..]) + &ps.tail
             }
             "line-delete" | "line-dup" | "stmt-delete" | "stmt-dup" => {
                 let ranges: Vec<(usize, usize)> = if kind.starts_with("line") {
@@ -1462,7 +1557,7 @@ fn main() {
             }
         }
         ("minimise", p) => minimise(p),
-        ("run", u @ ("tok20" | "tok31")) => {
+        ("run", u @ ("tok20.raw" | "tok20.top" | "tok20.body" | "tok31.raw" | "tok31.top" | "tok31.body")) => {
             let maxlen: usize = args[3].parse().unwrap();
             let total = num_token_strings(alphabet(u).len(), maxlen);
             let first: usize = args[4].parse().unwrap();
